@@ -257,6 +257,9 @@ def run(module, cfg, *, workers=None, env=None, simulate=None, depth=None, seed=
     m = re.search(r"Error: Action property (\S+) is violated", out)
     if m:
         r.invariant_violated = m.group(1)
+    m = re.search(r"Error: Temporal property (\S+) was violated", out)
+    if m:
+        r.invariant_violated = r.invariant_violated or m.group(1)
     if "Temporal properties were violated" in out:
         r.invariant_violated = r.invariant_violated or "temporal"
     for m in re.finditer(r"<(\w+) line \d+, col \d+ to line \d+, col \d+ of module \w+>: (\d+):(\d+)", out):
@@ -266,7 +269,7 @@ def run(module, cfg, *, workers=None, env=None, simulate=None, depth=None, seed=
     if rc == -9:
         hard = "timeout"
     elif re.search(r"(Parsing or semantic analysis failed|\*\*\* Errors:|Error: TLC threw an unexpected exception"
-                   r"|Error: Evaluating|Error: The error occurred|Error: Overflow|TLC encountered|java\.lang\.\w+Error|Error: The .* is not|was not found)", out):
+                   r"|Error: Evaluating|Error: current state is not a legal state|Error: The error occurred|Error: Overflow|TLC encountered|java\.lang\.\w+Error|Error: The .* is not|was not found)", out):
         if not r.invariant_violated:
             hard = "tlc-error"
     elif rc != 0 and not r.invariant_violated and not finished:
